@@ -101,6 +101,7 @@ REGISTRY: Dict[str, List[Tuple[Frag, str]]] = {
         (Frag("tensor_roi_hi", _IMG, "region_of_interest", "assign", {"start": "int", "size": "int", "m": "int"}, target="num", occ=(1, 1), elt=1, rename=_RN_ROI_T), "int"),
     ],
     "C08": [
+        (Frag("shear_dim", _AFF, "shear_matrix", "block", {"N": "int"}, tests=("N == 1",), outs=("D",), out_kinds={"D": "int"}), "int"),
     ] + [
         # euler_rotation_matrix: D = 2 entries, the five hard-coded 3-D orders, the three elementary rotations of the fallback
         (Frag(f"euler2_{i}{j}", _AFF, "euler_rotation_matrix", "assign", {"c0": "real", "s0": "real"}, target=f"matrix[..., {i}, {j}]",
